@@ -40,6 +40,91 @@ type container struct {
 	contains func(ap.Item) bool
 	count    func() uint
 	coll     func() ap.ItemCollection
+	// bystanders: other lists of the same decoded object; no call is ever made on them
+	bystanders   []*ap.ItemCollection
+	bystanderIDs [][]string
+	bystanderOf  []string
+}
+
+// newDecodedContainer: the item list under test is the "to" list of an object that came out of a
+// decoder (JSON or gob), with the object's other addressing lists as bystanders. A decoder may lay
+// out what it returns as it likes – but each list it returns is a set of its own.
+func newDecodedContainer(t *core.Tape, initial []ap.Item) *container {
+	ids := func(n int, ns string) []string {
+		out := make([]string, n)
+		for i := range out {
+			out[i] = fmt.Sprintf("https://bystander.example/%s/%d", ns, i+1)
+		}
+		return out
+	}
+	to := make([]string, len(initial))
+	for i, it := range initial {
+		to[i] = string(it.GetLink())
+	}
+	names := []string{"cc", "bto", "bcc", "audience"}
+	lists := map[string][]string{"to": to}
+	for _, nm := range names {
+		if t.Bool(2, 3) {
+			lists[nm] = ids(1+t.Draw(3), nm)
+		}
+	}
+	var ob *ap.Object
+	if t.Bool(1, 2) {
+		doc := map[string]any{"id": "https://example.com/decoded/1", "type": "Note"}
+		for k, v := range lists {
+			if len(v) > 0 {
+				doc[k] = v
+			}
+		}
+		raw, _ := json.Marshal(doc)
+		it, err := ap.UnmarshalJSON(raw)
+		if err != nil {
+			return nil
+		}
+		ob, _ = it.(*ap.Object)
+	} else {
+		src := &ap.Object{ID: "https://example.com/decoded/1", Type: ap.NoteType}
+		mk := func(v []string) ap.ItemCollection {
+			var l ap.ItemCollection
+			for _, id := range v {
+				l = append(l, ap.IRI(id))
+			}
+			return l
+		}
+		src.To, src.CC, src.Bto, src.BCC, src.Audience = mk(lists["to"]), mk(lists["cc"]), mk(lists["bto"]), mk(lists["bcc"]), mk(lists["audience"])
+		raw, err := src.GobEncode()
+		if err != nil {
+			return nil
+		}
+		ob = new(ap.Object)
+		if err := ob.GobDecode(raw); err != nil {
+			return nil
+		}
+	}
+	if ob == nil {
+		return nil
+	}
+	c := &container{kind: 0}
+	p := &ob.To
+	c.item, c.app, c.contains, c.count, c.coll = p, p.Append, func(x ap.Item) bool { return p.Contains(x) }, p.Count, p.Collection
+	for _, nm := range names {
+		if len(lists[nm]) == 0 {
+			continue
+		}
+		var l *ap.ItemCollection
+		switch nm {
+		case "cc":
+			l = &ob.CC
+		case "bto":
+			l = &ob.Bto
+		case "bcc":
+			l = &ob.BCC
+		default:
+			l = &ob.Audience
+		}
+		c.bystanders, c.bystanderIDs, c.bystanderOf = append(c.bystanders, l), append(c.bystanderIDs, lists[nm]), append(c.bystanderOf, nm)
+	}
+	return c
 }
 
 func newContainer(kind int, initial []ap.Item, spare int, total uint) *container {
@@ -108,6 +193,10 @@ func (c *container) remove(x ap.Item) error {
 		return nil
 	})
 }
+
+// unicodeSiblings: pairs of texts of equal length whose UTF-8 encodings differ only in bit 5 of one or
+// two bytes – the bit an ASCII-only case fold flips – and that are different letters, not case variants.
+var unicodeSiblings = [][2]string{{"たえ", "みと"}, {"张", "开"}}
 
 type poolItem struct {
 	it    ap.Item
@@ -180,6 +269,7 @@ func makePool(t *core.Tape, n int, rich bool) []poolItem {
 	}
 	g := gen.New(t, k)
 	pool := make([]poolItem, 0, n)
+	pendingSibling := ""
 	for i := 0; i < n; i++ {
 		var it ap.Item
 		shape := ""
@@ -258,6 +348,32 @@ func makePool(t *core.Tape, n int, rich bool) []poolItem {
 				shape += "~"
 			}
 		}
+		// internationalised ids: two ids whose UTF-8 encodings differ in one bit of one byte (and that
+		// are not case variants of each other) are two identities. The sibling of an id introduced here
+		// becomes the id of the next pool item.
+		if pendingSibling != "" {
+			it = withID(it, ap.IRI(pendingSibling))
+			shape += "~u"
+			pendingSibling = ""
+		} else if i+1 < n && t.Bool(1, 10) {
+			pair := unicodeSiblings[t.Draw(len(unicodeSiblings))]
+			base := fmt.Sprintf("https://social.example.org/users/%d/", 500+i)
+			it = withID(it, ap.IRI(base+pair[0]))
+			pendingSibling = base + pair[1]
+			shape += "~u"
+		}
+		// a long reply thread embedded in the item (a dereferenced inReplyTo chain): the item is still
+		// one member with one identity
+		if rich && t.Bool(1, 14) {
+			if ob, ok := it.(*ap.Object); ok {
+				var inner ap.Item = ap.IRI(fmt.Sprintf("https://example.com/thread/%d/root", i))
+				for d, depth := 0, 33+t.Draw(12); d < depth; d++ {
+					inner = &ap.Object{ID: ap.IRI(fmt.Sprintf("https://example.com/thread/%d/%d", i, d)), Type: ap.NoteType, InReplyTo: inner}
+				}
+				ob.InReplyTo = inner
+				shape += "+thread"
+			}
+		}
 		// ids that are not URLs: urn:, did:, acct:, tag:, mailto: name things in the fediverse too. They
 		// have no host and no path for an IRI comparison to look at – only their text – and two of
 		// them are still two identities
@@ -331,6 +447,12 @@ func verify(c *core.Ctx, ct *container, m *model, pool []poolItem, viaIntf bool,
 		}
 	} else {
 		got, cnt = ct.coll(), ct.count()
+	}
+	for bi, b := range ct.bystanders {
+		if bids := idsOf(*b); strings.Join(bids, "\x00") != strings.Join(ct.bystanderIDs[bi], "\x00") {
+			c.Fail("model", "C13/"+kn+"/bystander-list-changed", "after %s on the \"to\" list of a decoded object its %q list, on which no call was made, holds %s instead of %s", step, ct.bystanderOf[bi], shorts(bids), shorts(ct.bystanderIDs[bi]))
+			return
+		}
 	}
 	gids := idsOf(got)
 	if strings.Join(gids, "\x00") != strings.Join(m.ids, "\x00") {
@@ -412,6 +534,19 @@ func run(c *core.Ctx) {
 		c.Probe("total_items_set")
 	}
 	ct := newContainer(kind, initial, spare, total)
+	if kind == 0 && t.Bool(1, 5) {
+		if dc := newDecodedContainer(t, initial); dc != nil {
+			ct = dc
+			// the history starts from what the decoder returned (what a decoder makes of a document is
+			// C05's subject: the JSON decoder, for one, drops list members whose id is not a URL)
+			m.ids = idsOf(ct.coll())
+			for bi, b := range ct.bystanders {
+				ct.bystanderIDs[bi] = idsOf(*b)
+			}
+			c.Probe("list_of_a_decoded_object")
+			c.Logf("the list is the \"to\" list of a decoded object with bystander lists %v", dc.bystanderOf)
+		}
+	}
 	c.Logf("%s init=%s spare=%d totalItems=%d access=%d pool=%s", kindNames[kind], shorts(m.ids), spare, total, intfMode, poolDesc(pool))
 	verify(c, ct, m, pool, false, "init")
 	maxOps := 14
